@@ -10,7 +10,9 @@ tied to the function-level theorems of `Props/C18.lean`:
                             destinations of `resolve_links`, in its order);
   * `doc_dests_sorted`      … strictly increasing in the byte order of its keys;
   * `doc_dest_on_own_page`  every entry points into a page carrying an anchor of that name, at the image of that
-                            anchor's point under the matrix of that page.
+                            anchor's point under the matrix of that page;
+  * `doc_annot_rect_partial` every annotation is that of a link of its own page (type, target) and its `/Rect` is the
+                            link's rectangle under the matrix of that page (pages with at most 100 000 links).
 -/
 import WpModel.Model.C18DocLinks
 import WpModel.Props.C18
@@ -311,5 +313,93 @@ example :
   ⟨by decide, fun a ha c hc =>
     (by decide : ∀ a ∈ destNames (lpagesOf exampleDoc), ∀ c ∈ cpsOf exampleDoc a,
       c < 1114112 ∧ ¬ (55296 ≤ c ∧ c < 57344)) a ha c hc⟩
+
+end Wp.C18
+
+/-! ## each annotation covers its link -/
+
+namespace Wp.C18
+open Wp Wp.Anchors Wp.Outline Wp.DocLinks
+
+theorem number_get {α} (l : List α) : ∀ (n i : Nat) (p : α), l[i]? = some p → (number n l)[i]? = some (n + i, p) := by
+  induction l with
+  | nil => intro n i p h; simp at h
+  | cons y ys ih =>
+    intro n i p h
+    cases i with
+    | zero => simp only [List.getElem?_cons_zero, Option.some.injEq] at h; simp [number, h]
+    | succ j =>
+      simp only [List.getElem?_cons_succ] at h
+      have := ih (n + 1) j p h
+      simp only [number, List.getElem?_cons_succ, this]
+      congr 2; omega
+
+theorem lpagesOf_get (pages : List DPage) (i : Nat) (p : DPage) (h : pages[i]? = some p) :
+    (lpagesOf pages)[i]? = some ⟨p.anchors.map (·.1),
+      (number 0 p.links).map fun (y : Nat × DLink) => ⟨y.2.type, y.2.target, i * 100000 + y.1⟩⟩ := by
+  unfold lpagesOf
+  rw [List.getElem?_map, number_get pages 0 i p h]
+  simp
+
+/-- What `resolve_links` leaves of a page's links is a selection of that page's links. -/
+theorem resolved_links_subset (L : List LPage) (i : Nat) (lp : LPage) (res : List Outline.Link × List Anchor)
+    (hl : L[i]? = some lp) (hr : (resolveLinks L)[i]? = some res) : ∀ l ∈ res.1, l ∈ lp.links := by
+  have h := congrArg (fun x => x[i]?) (links_kept L)
+  simp only [List.getElem?_map, hr, hl, Option.map_some] at h
+  intro l hlm
+  have : res.1 = lp.links.filter _ := Option.some.inj h
+  rw [this] at hlm
+  exact (List.mem_filter.mp hlm).1
+
+/-- **Each annotation covers its link.**  On every page, every `/Link` and `/FileAttachment` annotation is
+that of a link of *this* page — same type, same target — and its `/Rect` is the link's rectangle under
+the matrix of this page.  `_partial`: for pages with at most 100 000 links (the link ids of the model are
+`page index · 100000 + index in the page`). -/
+theorem doc_annot_rect_partial (scale : Rat) (pages : List DPage)
+    (hsmall : ∀ p ∈ pages, p.links.length ≤ 100000) :
+    ∀ z ∈ pages.zip (resolveLinks (lpagesOf pages)), ∀ a ∈ pageAnnots scale pages z.1 z.2.1,
+      ∃ d ∈ z.1.links, d.type = a.kind ∧ d.target = a.target ∧
+        a.rect = some (annotRect (pageMatrix scale z.1.height) d.rect) := by
+  intro z hz a ha
+  obtain ⟨i, hi⟩ := List.mem_iff_getElem?.mp hz
+  obtain ⟨hp, hr⟩ := List.getElem?_zip_eq_some.mp hi
+  have hL := lpagesOf_get pages i z.1 hp
+  have key : ∀ l ∈ z.2.1, ∃ d ∈ z.1.links, d.type = l.type ∧ d.target = l.target ∧
+      rectOfLink pages l = some d.rect := by
+    intro l hl
+    have hl' := resolved_links_subset _ i _ z.2 hL hr l hl
+    obtain ⟨y, hy, rfl⟩ := List.mem_map.mp hl'
+    obtain ⟨_, hget⟩ := number_getElem _ 0 y hy
+    simp only [Nat.sub_zero] at hget
+    have hj : y.1 < z.1.links.length := (List.getElem?_eq_some_iff.mp hget).1
+    have hlen := hsmall z.1 (List.mem_of_getElem? hp)
+    refine ⟨y.2, List.mem_of_getElem? hget, rfl, rfl, ?_⟩
+    unfold rectOfLink
+    have e1 : (i * 100000 + y.1) / 100000 = i := by omega
+    have e2 : (i * 100000 + y.1) % 100000 = y.1 := by omega
+    simp only [e1, e2, hp, Option.bind_some, hget, Option.map_some]
+  unfold pageAnnots at ha
+  simp only [List.mem_append, List.mem_filterMap] at ha
+  rcases ha with ⟨l, hl, hla⟩ | ⟨l, hl, hla⟩
+  · obtain ⟨d, hd, h1, h2, h3⟩ := key l hl
+    unfold linkAnnotOf at hla
+    split at hla
+    · simp only [Option.some.injEq] at hla
+      subst hla
+      exact ⟨d, hd, h1, h2, by simp [h3]⟩
+    · cases hla
+  · obtain ⟨d, hd, h1, h2, h3⟩ := key l hl
+    unfold fileAnnotOf at hla
+    split at hla
+    · rename_i ht
+      simp only [Option.some.injEq] at hla
+      subst hla
+      exact ⟨d, hd, by rw [h1]; simpa using ht, h2, by simp [h3]⟩
+    · cases hla
+
+example : (∀ p ∈ exampleDoc, p.links.length ≤ 100000) ∧
+    (docAnnots (3 / 4) exampleDoc).map (·.map (·.rect)) =
+      [[some ⟨0, 75, 15 / 2, 135 / 2⟩, some ⟨0, 45, 15 / 2, 75 / 2⟩], []] := by
+  refine ⟨by decide, by decide +kernel⟩
 
 end Wp.C18
